@@ -19,6 +19,7 @@ import (
 	"fmt"
 	"os"
 	"path/filepath"
+	"reflect"
 	"regexp"
 	"sort"
 	"strings"
@@ -173,8 +174,38 @@ func c05Outcome(dict map[string]any, err error) any {
 }
 
 // c05Env prepares the loader inputs the way LoadWithContext → loadYamlFile would for the main file.
+// c05Materialize writes the files and replaces the placeholder $ROOT (the temporary root, unknown to the generator)
+// in their contents: references spelled as absolute paths, in particular the main file's own name.
+func c05Materialize(files map[string]string) (string, error) {
+	root, err := core.Materialize(files)
+	if err != nil {
+		return root, err
+	}
+	for p, content := range files {
+		if strings.Contains(content, "$ROOT") {
+			if err := os.WriteFile(filepath.Join(root, p), []byte(strings.ReplaceAll(content, "$ROOT", root)), 0o644); err != nil {
+				return root, err
+			}
+		}
+	}
+	return root, nil
+}
+
+// c05Subst replaces $ROOT in a tagged tree.
+func c05Subst(t core.T, root string) core.T {
+	b, err := json.Marshal(t)
+	if err != nil || !strings.Contains(string(b), "$ROOT") {
+		return t
+	}
+	var out any
+	if json.Unmarshal([]byte(strings.ReplaceAll(string(b), "$ROOT", root)), &out) != nil {
+		return t
+	}
+	return out
+}
+
 func c05Env(t c05Tree) (root string, ctx context.Context, opts *loader.Options, mainAbs string, err error) {
-	root, err = core.Materialize(t.render())
+	root, err = c05Materialize(t.render())
 	if err != nil {
 		return
 	}
@@ -312,20 +343,70 @@ func realC05Apply(raw json.RawMessage) any {
 	if err != nil {
 		return map[string]any{"bad": err.Error()}
 	}
+	a.Dict = c05Subst(a.Dict, root)
 	dict0, _ := core.DecodeVal(a.Dict).(map[string]any)
 	fs := c05FS(ctx, opts, filepath.Join(root, a.WD), mainAbs, dict0)
 	dict, _ := core.DecodeVal(a.Dict).(map[string]any)
+	var shared []string
 	out := core.SafeCall(func() any {
 		err := loader.VerifApplyExtends(ctx, dict, opts)
+		if err == nil {
+			shared = sharedStructure(dict["services"])
+		}
 		return c05Outcome(dict, err)
 	})
-	return map[string]any{"out": out, "fs": fs, "main": mainAbs}
+	return map[string]any{"out": out, "fs": fs, "main": mainAbs, "shared": shared}
+}
+
+// sharedStructure lists the pairs of paths under which one and the same non-empty mapping or sequence *object* is
+// reachable in the resolved services: the result of extends must be a tree — the base is deep-cloned before the merge
+// and the special mergers build fresh containers — because every later stage (canonical form, path resolution,
+// normalisation) rewrites the tree in place, so a container shared by two services, or by two entries of one service,
+// is cross-talk waiting to happen.  (The Lean model is value-typed; aliasing is decided here, on the real heap.)
+func sharedStructure(v any) []string {
+	seen := map[uintptr]string{}
+	var out []string
+	var walk func(v any, path string)
+	walk = func(v any, path string) {
+		switch x := v.(type) {
+		case map[string]any:
+			if len(x) == 0 {
+				return
+			}
+			p := reflect.ValueOf(x).Pointer()
+			if first, dup := seen[p]; dup {
+				out = append(out, first+" = "+path)
+				return
+			}
+			seen[p] = path
+			for k, e := range x {
+				walk(e, path+"."+k)
+			}
+		case []any:
+			if len(x) == 0 {
+				return
+			}
+			p := reflect.ValueOf(x).Pointer()
+			if first, dup := seen[p]; dup {
+				out = append(out, first+" = "+path)
+				return
+			}
+			seen[p] = path
+			for i, e := range x {
+				walk(e, fmt.Sprintf("%s[%d]", path, i))
+			}
+		}
+	}
+	walk(v, "services")
+	sort.Strings(out)
+	return out
 }
 
 type c05ApplyReal struct {
-	Out  json.RawMessage `json:"out"`
-	FS   json.RawMessage `json:"fs"`
-	Main string          `json:"main"`
+	Shared []string        `json:"shared"`
+	Out    json.RawMessage `json:"out"`
+	FS     json.RawMessage `json:"fs"`
+	Main   string          `json:"main"`
 }
 
 // c05Norm maps every way the merge step can fail — "cannot override", "<path>: unexpected type …" (the special mergers,
@@ -373,15 +454,147 @@ func judgeC05Apply(args, real, drv json.RawMessage) *core.Verdict {
 		return core.Disagree("malformed real outcome: " + string(real))
 	}
 	var d struct {
-		Outs []json.RawMessage `json:"outs"`
+		Outs []json.RawMessage   `json:"outs"`
+		Flat [][]json.RawMessage `json:"flat"`
 	}
 	if json.Unmarshal(drv, &d) != nil || len(d.Outs) == 0 {
 		return core.Disagree("malformed driver outcome: " + string(drv))
+	}
+	if len(r.Shared) > 0 {
+		return core.Fail("result-shares-structure:"+sharedKind(r.Shared[0]), "the resolved services are not a tree: "+strings.Join(r.Shared, "; "))
+	}
+	// ---- spec oracle: the flatten specification (Spec/Extends.lean `flattenF`, proved equivalent to `Flat`) computed
+	// by the driver for every service — no tracker, no memoisation, no visit order.  Inside its domain (every service
+	// flattens) the real outcome must be exactly that: a difference is a failing input, not just a broken tie.
+	if v := c05SpecVerdict(args, r.Out, d.Flat); v != nil {
+		return v
 	}
 	if !c05MemberOf(r.Out, d.Outs) {
 		return core.Disagree("ApplyExtends outcome is not an outcome of Extends.applyExtendsOrd under any visit order")
 	}
 	return nil
+}
+
+// sharedKind names the attribute path of a sharing report without service names and indices (a stable key).
+func sharedKind(s string) string {
+	parts := strings.Split(s, " = ")
+	norm := func(p string) string {
+		segs := strings.Split(p, ".")
+		if len(segs) > 2 {
+			segs = segs[2:] // drop "services.<name>"
+		} else {
+			segs = nil
+		}
+		for i, g := range segs {
+			if j := strings.Index(g, "["); j >= 0 {
+				segs[i] = g[:j] + "[]"
+			}
+		}
+		if len(segs) > 1 {
+			segs = segs[:1] // the attribute is enough for a stable key
+		}
+		return strings.Join(segs, ".")
+	}
+	if len(parts) != 2 {
+		return "?"
+	}
+	return norm(parts[0]) + "~" + norm(parts[1])
+}
+
+// taggedMap splits a tagged mapping {"m":[[k,v]…]} into its entries.
+func taggedMap(raw json.RawMessage) map[string]json.RawMessage {
+	var t struct {
+		M [][]json.RawMessage `json:"m"`
+	}
+	if json.Unmarshal(raw, &t) != nil || t.M == nil {
+		return nil
+	}
+	out := map[string]json.RawMessage{}
+	for _, kv := range t.M {
+		if len(kv) != 2 {
+			return nil
+		}
+		var k string
+		if json.Unmarshal(kv[0], &k) != nil {
+			return nil
+		}
+		out[k] = kv[1]
+	}
+	return out
+}
+
+func c05SpecVerdict(args, realOut json.RawMessage, flat [][]json.RawMessage) *core.Verdict {
+	if len(flat) == 0 {
+		return nil
+	}
+	want := map[string]json.RawMessage{}
+	for _, e := range flat {
+		if len(e) != 2 {
+			return nil
+		}
+		var n string
+		var o struct {
+			Ok json.RawMessage `json:"ok"`
+		}
+		if json.Unmarshal(e[0], &n) != nil || json.Unmarshal(e[1], &o) != nil || o.Ok == nil {
+			return nil // some service has no flattened form: outside the domain of the flatten oracle
+		}
+		want[n] = o.Ok
+	}
+	var a c05ApplyArgs
+	json.Unmarshal(args, &a)
+	var ro struct {
+		Ok  json.RawMessage `json:"ok"`
+		Err *string         `json:"err"`
+	}
+	if json.Unmarshal(realOut, &ro) != nil {
+		return nil
+	}
+	if ro.Err != nil {
+		return core.Fail("acyclic-rejected:"+*ro.Err+":"+a.trackerClash(), "every service has a flattened form (finite chain, bases and files exist, merges succeed) but ApplyExtends fails with "+*ro.Err)
+	}
+	if ro.Ok == nil {
+		return nil // a panic: C01's concern, compared by the correspondence
+	}
+	got := taggedMap(taggedMap(ro.Ok)["services"])
+	if got == nil {
+		return nil
+	}
+	var bad []string
+	for n, w := range want {
+		g, ok := got[n]
+		if !ok {
+			bad = append(bad, "<missing:"+n+">")
+			continue
+		}
+		if core.CanonEqual(g, w) {
+			continue
+		}
+		gm, wm := taggedMap(g), taggedMap(w)
+		keys := map[string]bool{}
+		for k := range gm {
+			keys[k] = true
+		}
+		for k := range wm {
+			keys[k] = true
+		}
+		for k := range keys {
+			if !core.CanonEqual(gm[k], wm[k]) {
+				bad = append(bad, k)
+			}
+		}
+	}
+	if len(bad) == 0 {
+		return nil
+	}
+	sort.Strings(bad)
+	var u []string
+	for i, b := range bad {
+		if i == 0 || b != bad[i-1] {
+			u = append(u, b)
+		}
+	}
+	return core.Fail("extends-ne-flatten:"+strings.Join(u, ","), "a resolved service differs from base-then-local flattening (override rules = the C04 merge model) in "+strings.Join(u, ","))
 }
 
 // ---------------------------------------------------------------- c05.extend
@@ -432,6 +645,7 @@ func realC05Order(raw json.RawMessage) any {
 	if err != nil {
 		return map[string]any{"bad": err.Error()}
 	}
+	a.Dict = c05Subst(a.Dict, root)
 	dict0, _ := core.DecodeVal(a.Dict).(map[string]any)
 	svcs, _ := dict0["services"].(map[string]any)
 	var names []string
@@ -542,7 +756,8 @@ func init() {
 			json.Unmarshal(args, &a)
 			var r c05ApplyReal
 			json.Unmarshal(real, &r)
-			return map[string]any{"main": r.Main, "dict": a.Dict, "fs": r.FS}
+			root := strings.TrimSuffix(r.Main, "/"+a.Main)
+			return map[string]any{"main": r.Main, "dict": c05Subst(a.Dict, root), "fs": r.FS}
 		},
 		Judge:   judgeC05Apply,
 		Timeout: 20 * time.Second,
